@@ -22,6 +22,14 @@ def run(ck, tier, seed):
         ck.violation("driver-died", f"the dispatch driver died (exit {p.returncode}): a registered function was entered with something that crashed it", p.stderr[-3000:])
         return
     res = lib.tlc("Dispatch", workers=1, timeout=1800, env={"ROWS": rows, "FACTS": facts, "OUT": out}, heap="8g")
+    mo = re.search(r'<<\s*"order",(.*?)>>', res.output, re.S)
+    if mo:
+        facts_txt = re.sub(r"\s+", " ", mo.group(1)).strip()
+        ck.notes.append("function_less_than as an order over the catalogue signatures (informational): " + facts_txt)
+        ck.extra["order_facts"] = facts_txt
+    mn = re.search(r'<<\s*"nontransitive",(.*?)>>\s*>>', res.output, re.S)
+    if mn:
+        ck.extra["order_nontransitive"] = re.sub(r"\s+", " ", mn.group(1)).strip()[:600]
     m = re.search(r'<<"rows", (\d+), "property", (\d+), "transcription", (\d+)>>', res.output)
     if not m:
         raise lib.Infra("Dispatch.tla did not report counts:\n" + res.output[-2000:])
